@@ -115,6 +115,8 @@ def run(ctx):
                       "ownership token of a pending evaluation", floor=1)
     ctx.rule("R08.i", "(shared with R10.c) in reactive.py every write of the cached result after a suspension point is guarded by `self._current_task is task`, and the task is registered before "
                       "the first suspension: of two evaluations started in the same tick the older one cannot publish last", floor=2)
+    ctx.rule("R08.o", "nested references are resolved at every depth: resolve_value (with the real resolve_ref) interpreted on [[P, 0]], {'a': {'v': P}}, ([P],), [P, [P]] returns the same shape "
+                      "with the source's current value in place of the Parameter", floor=1)
     ctx.rule("R08.n", "update model (shared with R02.u): Parameters._update -- through which _sync_refs pushes every linked parameter a source event affects -- assigns each key once and never "
                       "writes an accepted key back when a later one is rejected; a key given the object it already holds still reaches the setter", floor=1)
     ctx.rule("R08.f", "the update context manager relinks on exit: Parameters.update, interpreted abstractly on six call forms (keywords / dict / dict+keywords / pairs / pairs+keywords), "
@@ -350,6 +352,8 @@ def run(ctx):
     rx_latest_wins(ctx, "R08.j", "R08.i")
     from checks import update_model
     update_model.report(ctx, "C08", "R08.n")
+    from checks.c09 import nested_references_are_resolved
+    nested_references_are_resolved(ctx, "R08.o")
 
     from checks.shared import flush_model
     flush_model(ctx, "R08.h")
